@@ -115,6 +115,8 @@ def check(run, prog, tier):
             raise AnalysisError(f"decision depends on {show(tm)}; not modelled")
         return leaf
 
+    free_state = set()
+
     def consistent(p, leaf):
         for e in p.events:
             if e.kind == "call" and e.ext and e.ext.startswith("enumconv:") and e.args and not is_const(e.args[0]):
@@ -125,12 +127,21 @@ def check(run, prog, tier):
             if e.kind == "call" and e.attrname == "readexactly" and e.raised is not None:
                 return False  # cases below assume the stream holds enough bytes
         for c, val, _, _ in p.conds:
-            if bool(eval_term(c, leaf)) != val:
-                return False
+            try:
+                if bool(eval_term(c, leaf)) != val:
+                    return False
+            except AnalysisError:
+                # a decision about remembered state of the module / class (a cache, a counter): a free dimension - the
+                # reader has to agree with the datagram decoder for either outcome
+                if contains(c, lambda s_: s_[0] == "attr" and s_[1][0] in ("mod", "cls") and not (s_[1][0] == "mod" and s_[2].isupper())):
+                    free_state.add(show(c)[:80])
+                    continue
+                raise
         return True
 
     cases = 0
     problems = {}
+    undecided = []
     for size, pv, mtv, rcv in itertools.product((0, 7, 8, 9, 24, 0x10007), (0, 1, 2),
                                                 (min(mt), max(mt), bad_mt), (min(rc), max(rc), bad_rc)):
         cases += 1
@@ -140,53 +151,78 @@ def check(run, prog, tier):
         rl = mkleaf(ru, U, {})
         ph = [p for p in ppaths if _safe(consistent, p, pl)]
         rh = [p for p in rpaths if _safe(consistent, p, rl)]
-        if len(ph) != 1 or len(rh) != 1:
+        if len(ph) != 1 or not rh or (len(rh) != 1 and not free_state):
             raise AnalysisError(f"sibling comparison: {len(ph)} parse paths / {len(rh)} read paths for one case")
-        pp, rp = ph[0], rh[0]
-        p_acc = pp.returns()
-        r_acc = rp.returns()
-        why = "valid" if (pv == 1 and mtv in mt and rcv in rc and size >= 8) else (
-            "bad-version" if pv != 1 else "bad-type" if mtv not in mt else "bad-return-code" if rcv not in rc else "length<8")
-        if p_acc != r_acc:
-            problems.setdefault(f"{read.qual}:decision[{why}]",
-                                f"length field {size}, version {pv}, type {mtv:#x}, return code {rcv:#x}: datagram decoder "
-                                f"{'accepts' if p_acc else 'rejects'}, stream decoder {'accepts' if r_acc else 'raises ' + str(rp.outcome[1])}")
-            continue
-        if not p_acc:
-            if not (rp.outcome[0] == "raise" and eng.exc.is_sub(rp.outcome[1], "header.ParseError")):
-                problems.setdefault(f"{read.qual}:reject-error-type[{why}]",
-                                    f"stream decoder rejects a bad header with {rp.outcome[1] if len(rp.outcome) > 1 else rp.outcome[0]}, not with the library's ParseError")
-            # ... and at the same position: on seeing the header, before any payload byte is awaited (a reader that
-            # first waits for the payload blocks on a stream whose payload never comes, or reports EOF instead)
-            nrx = [e for e in rp.events if e.kind == "call" and e.attrname == "readexactly" and e.recv == rdr]
-            if len(nrx) != 1:
-                problems.setdefault(f"{read.qual}:reject-position[{why}]",
-                                    f"length field {size}, version {pv}, type {mtv:#x}, return code {rcv:#x}: the stream decoder rejects this header only "
-                                    f"after {len(nrx)} readexactly call(s) - it must be rejected once the {H} header bytes are read, as the datagram decoder does")
-            continue
-        pm = pp.retval()[1][0]
-        rm = rp.retval()
-        if rm[0] != "new" or rm[1] != HDR:
-            raise AnalysisError(f"{read.qual}: does not return a constructed SOMEIPHeader")
-        pfld, rfld = dict(pm[2]), dict(rm[2])
-        for f in sorted(set(pfld) | set(rfld)):
-            if f == "payload":
-                continue
-            a = eval_term(pfld[f], pl) if f in pfld else "<default>"
-            b = eval_term(rfld[f], rl) if f in rfld else "<default>"
-            if a != b or type(a) is not type(b):
-                problems.setdefault(f"{read.qual}:field[{f}]", f"field {f}: datagram decoder gives {a!r}, stream decoder gives {b!r}")
-        # payload length and read order
-        rx = [e for e in rp.events if e.kind == "call" and e.attrname == "readexactly" and e.recv == rdr]
-        lens = [eval_term(e.args[0], rl) for e in rx]
-        if lens != [H, size - 8]:
-            problems.setdefault(f"{read.qual}:read-sizes", f"length field {size}: stream decoder reads {lens} bytes; expected [{H}, {size - 8}] (header, then payload)")
-        if "payload" not in rfld or rfld["payload"][0] != "await" or not rx or rfld["payload"][1] != rx[-1].result:
-            problems.setdefault(f"{read.qual}:payload-source", "payload of the stream message is not exactly the bytes of the second readexactly")
-        plen = len(eval_term(pfld["payload"], pl))
-        if plen != size - 8:
-            problems.setdefault(f"{parse.qual}:payload-length", f"datagram decoder payload is {plen} bytes for length field {size}")
+        pp = ph[0]
+        tail_valid = pv == 1 and mtv in mt and rcv in rc
+        if len(rh) > 1 and not tail_valid:
+            # remembered state is consulted and this header's constant part is one the validator rejects.  The branch that
+            # "remembers" it is feasible only if such a header can get into the memory: that is the case iff some path
+            # that is feasible for this header writes the memory.  Otherwise only the branch that agrees with the datagram
+            # decoder can be taken.
+            def writes_memory(q_):
+                return any(e.kind == "store" and e.target is not None and
+                           contains(e.target, lambda s_: s_[0] == "attr" and s_[1][0] in ("mod", "cls")) for e in q_.events) or \
+                    any(e.kind == "call" and e.attrname in ("add", "setdefault", "update", "append") and e.recv is not None and
+                        contains(e.recv, lambda s_: s_[0] == "attr" and s_[1][0] in ("mod", "cls")) for e in q_.events)
+            if not any(writes_memory(q_) for q_ in rh):
+                agree = [q_ for q_ in rh if q_.returns() == pp.returns()]
+                if agree:
+                    rh = agree[:1]
+        for rp in rh:
+          try:
+                p_acc = pp.returns()
+                r_acc = rp.returns()
+                why = "valid" if (pv == 1 and mtv in mt and rcv in rc and size >= 8) else (
+                    "bad-version" if pv != 1 else "bad-type" if mtv not in mt else "bad-return-code" if rcv not in rc else "length<8")
+                if p_acc != r_acc:
+                    problems.setdefault(f"{read.qual}:decision[{why}]",
+                                        f"length field {size}, version {pv}, type {mtv:#x}, return code {rcv:#x}: datagram decoder "
+                                        f"{'accepts' if p_acc else 'rejects'}, stream decoder {'accepts' if r_acc else 'raises ' + str(rp.outcome[1])}")
+                    continue
+                if not p_acc:
+                    if not (rp.outcome[0] == "raise" and eng.exc.is_sub(rp.outcome[1], "header.ParseError")):
+                        problems.setdefault(f"{read.qual}:reject-error-type[{why}]",
+                                            f"stream decoder rejects a bad header with {rp.outcome[1] if len(rp.outcome) > 1 else rp.outcome[0]}, not with the library's ParseError")
+                    # ... and at the same position: on seeing the header, before any payload byte is awaited (a reader that
+                    # first waits for the payload blocks on a stream whose payload never comes, or reports EOF instead)
+                    nrx = [e for e in rp.events if e.kind == "call" and e.attrname == "readexactly" and e.recv == rdr]
+                    if len(nrx) != 1:
+                        problems.setdefault(f"{read.qual}:reject-position[{why}]",
+                                            f"length field {size}, version {pv}, type {mtv:#x}, return code {rcv:#x}: the stream decoder rejects this header only "
+                                            f"after {len(nrx)} readexactly call(s) - it must be rejected once the {H} header bytes are read, as the datagram decoder does")
+                    continue
+                pm = pp.retval()[1][0]
+                rm = rp.retval()
+                if rm[0] != "new" or rm[1] != HDR:
+                    raise AnalysisError(f"{read.qual}: does not return a constructed SOMEIPHeader")
+                pfld, rfld = dict(pm[2]), dict(rm[2])
+                for f in sorted(set(pfld) | set(rfld)):
+                    if f == "payload":
+                        continue
+                    a = eval_term(pfld[f], pl) if f in pfld else "<default>"
+                    b = eval_term(rfld[f], rl) if f in rfld else "<default>"
+                    if a != b or type(a) is not type(b):
+                        problems.setdefault(f"{read.qual}:field[{f}]", f"field {f}: datagram decoder gives {a!r}, stream decoder gives {b!r}")
+                # payload length and read order
+                rx = [e for e in rp.events if e.kind == "call" and e.attrname == "readexactly" and e.recv == rdr]
+                lens = [eval_term(e.args[0], rl) for e in rx]
+                if lens != [H, size - 8]:
+                    problems.setdefault(f"{read.qual}:read-sizes", f"length field {size}: stream decoder reads {lens} bytes; expected [{H}, {size - 8}] (header, then payload)")
+                if "payload" not in rfld or rfld["payload"][0] != "await" or not rx or rfld["payload"][1] != rx[-1].result:
+                    problems.setdefault(f"{read.qual}:payload-source", "payload of the stream message is not exactly the bytes of the second readexactly")
+                plen = len(eval_term(pfld["payload"], pl))
+                if plen != size - 8:
+                    problems.setdefault(f"{parse.qual}:payload-length", f"datagram decoder payload is {plen} bytes for length field {size}")
+          except AnalysisError as exc:
+            if not free_state:
+                raise
+            undecided.append(str(exc))
     run.abstract_cases += cases
+    if free_state:
+        run.extra["free_state_dimensions"] = sorted(free_state)
+    if undecided and not problems:
+        raise AnalysisError(f"sibling comparison: values taken from remembered state ({sorted(free_state)[:2]}): {undecided[0]}")
     for k, m in problems.items():
         run.ob("S1" if ":decision" in k or ":field" in k or "reject-" in k else "S2", k, False, loc(read), m)
     if not problems:
